@@ -93,7 +93,21 @@ def table_uses(mod, table):
 def r_label_closure(repo, rep, R='R19.1'):
     labels = grammar_labels(repo)
     mod = repo.module(PROLOG)
+    # the two label tables by what they are indexed with: the English printer looks rule names (op_string) up, the Japanese one
+    # rule symbols (op_symbol) -- whatever the tables are called
+    by_role = {}
+    for st_ in mod.tree.body:
+        if isinstance(st_, (ast.Assign, ast.AnnAssign)) and getattr(st_, 'value', None) is not None:
+            for t_ in (st_.targets if isinstance(st_, ast.Assign) else [st_.target]):
+                if isinstance(t_, ast.Name):
+                    attrs_ = {a_ for _f, _n, a_ in table_uses(mod, t_.id)}
+                    if attrs_ == {'op_string'}:
+                        by_role.setdefault('en', []).append(t_.id)
+                    elif attrs_ == {'op_symbol'}:
+                        by_role.setdefault('ja', []).append(t_.id)
     for lang, table in (('en', '_op_mapping'), ('ja', '_ja_combinators')):
+        if mod.assign(table, required=False) is None and len(by_role.get(lang, [])) == 1:
+            table = by_role[lang][0]
         val = mod.assign(table)
         from ..rules_grammar import const_dict_keys
         klist = const_dict_keys(mod, val) if val is not None else None
